@@ -11,6 +11,9 @@ All theorems hold for **every** spelling function `apiPath : SourceFilePath → 
 lookup outcome and frame list of any length, and every request string.
 `FirstMatch apiPath fs requested fp` (Lemmas) says: `fp` is the first file path, in frame order, whose API
 spelling equals `requested`.
+The second half (`C09_symbol_map_choice` …) adds the library's debug id, the module offset, the debug-file
+candidates and the receiver of `location_for_source_file` (`Manager`, `sourceApiAt`), a batched `/symbolicate/v5`
+(`symbolicate`), the `moduleOffset` string, the two lookup loops of `symbol_map.rs` and wholesym's location policy.
 Only property theorems (names `C09_*`) and non-vacuity examples live in this file.
 -/
 open SourceApi
